@@ -6,6 +6,9 @@ CLAIMED = {
  'C10': dict(technique='Lean 4 theorems about an executable model of the field classes + differential correspondence (13 class streams, exhaustive small primes) + exact oracle',
              text='Every Z_p operation of the model (add/sub with the wrap-around branch, double-and-add multiply for every modulus < 2^32, signed conversion, fused operations, inverse table, rejection of composites) is proved equal to exact modular arithmetic in Lean (no bound on operands); the model is tied to the 13 real classes on every run by running the same histories through harness/hC10.cpp and gvdriver C10, exhaustively for small primes. The multi-field partial inverse is only checked by correspondence + exact oracle (CRT idempotents proved).',
              note='Lean kernel, Mathlib number theory, axioms propext/Classical.choice/Quot.sound; hand-written model tied by differential testing; GMP trusted; static classes only for the instantiated parameters', ref='§5 C10'),
+ 'C01': dict(technique='Lean 4 refinement theorems (Forest model vs abstract complex, lifted over histories) + differential correspondence on 8 option sets + independent Python abstract-complex oracle',
+             text='The Forest model of the simplex tree is proved in Lean to refine the abstract complex for every history of insertions (raw and with subfaces, including the short-cut), maximal-simplex removals and both prunes (reachable_refines), with star / cofaces of every codimension, traversal and lazy-dimension theorems; gvdriver ST runs that model and harness/hST.cpp runs the same histories on the real Simplex_tree under eight option sets, comparing the whole observable state after the operations; a Python abstract complex predicts every line independently.',
+             note='Lean kernel + axioms propext/Classical.choice/Quot.sound; model tied by differential testing (small universe, preconditions respected); batch/graph/clear/boundary/count/equality readers are word-level functions of the model (correspondence + oracle only); memory layout of option sets not modelled', ref='§5 C01'),
 }
 ALL = ['C%02d' % i for i in range(1, 21)]
 checks = []
